@@ -221,7 +221,8 @@ C05BVals == <<NOTHING, JArr(<<>>), JObj(<<>>, <<>>), JInt(0)>>
 C05CVals == <<NOTHING, JInt(1), JInt(2)>>
 C05Kids == FlattenSeq([a \in 1..Len(C05AVals) |-> FlattenSeq([b \in 1..Len(C05BVals) |->
               [c \in 1..Len(C05CVals) |-> ObjOpt(<<cA, cB, cC>>, <<C05AVals[a], C05BVals[b], C05CVals[c]>>)]])])
-C05Extra == <<JArr(<<JInt(2), Obj1(cA, JInt(1))>>), JObj(<<cX, <<121>>>>, <<JInt(1), Obj1(cA, JNull)>>), JObj(<<cA, cX>>, <<JInt(1), Obj1(cB, JInt(2))>>), JArr(<<JArr(<<>>), JArr(<<JInt(1), Obj1(cB, JInt(1))>>)>>),
+C05Extra == <<JArr(<<JArr(<<Obj1(cA, JInt(1))>>)>>), Obj1(cX, JArr(<<JArr(<<JArr(<<Obj1(cB, JNull)>>)>>)>>)), JArr(<<JArr(<<JInt(1)>>), Obj1(cA, JInt(2))>>),
+              JArr(<<JInt(2), Obj1(cA, JInt(1))>>), JObj(<<cX, <<121>>>>, <<JInt(1), Obj1(cA, JNull)>>), JObj(<<cA, cX>>, <<JInt(1), Obj1(cB, JInt(2))>>), JArr(<<JArr(<<>>), JArr(<<JInt(1), Obj1(cB, JInt(1))>>)>>),
               JArr(<<Obj1(cB, JInt(0)), Obj1(cA, JInt(0))>>), Obj1(nAB2, JInt(1)), Obj1(cA, Obj1(cB, JNull)), Obj1(nA1, JBool(FALSE)), Obj1(cA, JArr(<<JInt(0), JNull>>)), JArr(<<JInt(1), JInt(2)>>), JArr(<<JInt(1)>>),
               JInt(1), JNull, JArr(<<>>), JArr(<<Obj1(cB, JInt(1))>>), JArr(<<Obj1(cA, JInt(1)), JInt(2)>>), Obj1(cX, Obj1(cB, JNull))>>
 \* long chains of alternatives (a query as large as hand-written "IN lists"): children whose c is an integer, the same number
@@ -274,7 +275,9 @@ NAbsX == LTest(TRUE, EAbs(<<N1(cX)>>))                                        \*
 TAbsL0 == LTest(FALSE, EAbs(<<N1(cL), I1(0)>>))                               \* $.l[0]
 CAbs == LCmp(">", EFn("count", <<EAbs(<<N1(cL), Child(<<SWild>>)>>)>>), ELit(JInt(1)))      \* count($.l.*) > 1   (absolute query as an argument)
 C05FnAbs == <<NMt, NSr, LAnd(<<TA, NMt>>), LOr(<<NSr, TB>>), TAbsK, NAbsX, TAbsL0, CAbs, LAnd(<<TAbsK, TA>>), LOr(<<NAbsX, TB>>), LAnd(<<CAbs, NA>>)>>
-C05Branchy == <<TWA, TWB, TUA, TDA, NWA, TW2, LAnd(<<TWA, TWB>>), LOr(<<NWA, TUA>>)>>
+TDesc == LTest(FALSE, ERel(<<Desc(<<SName(cA)>>)>>))                           \* @..a
+NDesc == LTest(TRUE, ERel(<<Desc(<<SName(cB)>>)>>))                            \* !@..b
+C05Branchy == <<TDesc, NDesc, LAnd(<<TDesc, NA>>), TWA, TWB, TUA, TDA, NWA, TW2, LAnd(<<TWA, TWB>>), LOr(<<NWA, TUA>>)>>
 C05LookAlike == << LOr(<<TAB, TAdB>>), LOr(<<TAdB, TAB>>), LAnd(<<TAB, TAdB>>), LOr(<<TA1, TAi1>>), LOr(<<TAi1, TA1>>), LAnd(<<TAi1, TA1>>),
                    LOr(<<TS10, TS1>>), LAnd(<<TS1, TS10>>), LOr(<<TAB, TAB, TAdB>>), LAnd(<<LParen(TRUE, TAB), TAdB>>), LOr(<<TA, TA>>), LAnd(<<TA, TA, TB>>) >>
 C05Atoms == <<TA, TB, TC, NA, TK, TW, TN, TN2, TEq, TLe, TNLt, TNGe>>
@@ -283,6 +286,8 @@ C05A == IF Thorough THEN C05AtomsT ELSE C05Atoms
 C05And2 == Cross2(C05A, C05A, LAMBDA x, y : LAnd(<<x, y>>))
 C05Or2 == Cross2(C05A, C05A, LAMBDA x, y : LOr(<<x, y>>))
 C05Core == <<TA, TB, TC, NA>>
+C05AndNot == FlattenSeq([i \in 1..Len(C05Core) |-> Cross2(C05Core, C05Core, LAMBDA y, z : LAnd(<<C05Core[i], LParen(TRUE, LAnd(<<y, z>>))>>))])     \* a && !(b && c)
+             \o Cross2(C05Core, C05Core, LAMBDA y, z : LAnd(<<LParen(TRUE, LParen(FALSE, LAnd(<<y, z>>))), TA>>))                                  \* !((b && c)) && a
 C05And3 == FlattenSeq([i \in 1..Len(C05Core) |-> Cross2(C05Core, C05Core, LAMBDA y, z : LAnd(<<C05Core[i], y, z>>))])
 C05OrAnd == FlattenSeq([i \in 1..Len(C05Core) |-> Cross2(C05Core, C05Core, LAMBDA y, z : LOr(<<C05Core[i], LAnd(<<y, z>>)>>))])   \* a || b && c
 C05AndOr == FlattenSeq([i \in 1..Len(C05Core) |-> Cross2(C05Core, C05Core, LAMBDA y, z : LOr(<<LAnd(<<C05Core[i], y>>), z>>))])   \* a && b || c
@@ -296,9 +301,11 @@ C05GroupOps == FlattenSeq(Cross2(C05Group, <<TA, NA>>, LAMBDA grp, z :
 C05NegOr == Cross2(C05A, C05A, LAMBDA x, y : LParen(TRUE, LOr(<<x, y>>)))                                                  \* !(a || b)
 C05DblNeg == [i \in 1..Len(C05A) |-> LParen(TRUE, LParen(TRUE, C05A[i]))]                                                   \* !(!(a))
 C05Deep == Cross2(C05Core, C05Core, LAMBDA x, y : LParen(TRUE, LOr(<<LParen(TRUE, LAnd(<<x, y>>)), LParen(FALSE, LParen(TRUE, y))>>)))
-C05Lx == C05A \o C05LookAlike \o C05Branchy \o C05FnAbs \o C05GroupOps \o C05And2 \o C05Or2 \o C05And3 \o C05OrAnd \o C05AndOr \o C05ParOr \o C05NegPar \o C05NegOr \o C05DblNeg \o C05Deep
+C05Lx == C05A \o C05LookAlike \o C05Branchy \o C05FnAbs \o C05AndNot \o C05GroupOps \o C05And2 \o C05Or2 \o C05And3 \o C05OrAnd \o C05AndOr \o C05ParOr \o C05NegPar \o C05NegOr \o C05DblNeg \o C05Deep
 \* a filter selector that receives the SAME node several times keeps its children each time (a nodelist is not a set)
-C05MultiQ == << <<N1(cL), Child(<<SFilter(TA), SFilter(TB)>>)>>, <<N1(cL), Child(<<SFilter(TB), SFilter(TA), SFilter(TB)>>)>>, <<N1(cL), Child(<<SFilter(NA), SIndex(0), SFilter(TC)>>)>>,
+C05MultiQ == << <<N1(cL), Child(<<SFilter(TAdB), SFilter(TAB)>>)>>, <<N1(cL), Child(<<SFilter(TAB), SFilter(TAdB), SFilter(TAB)>>)>>,
+                <<N1(cL), Child(<<SFilter(LAnd(<<LParen(FALSE, LOr(<<TA, TB>>)), TC>>)), SFilter(LOr(<<TA, LAnd(<<TB, TC>>)>>))>>)>>,                   \* [?(a || b) && c, ?a || b && c]
+                <<N1(cL), Child(<<SFilter(TA), SFilter(TB)>>)>>, <<N1(cL), Child(<<SFilter(TB), SFilter(TA), SFilter(TB)>>)>>, <<N1(cL), Child(<<SFilter(NA), SIndex(0), SFilter(TC)>>)>>,
                 Flt1(LCmp("==", EFn("count", <<ERel(<<Child(<<SFilter(LTest(FALSE, ERel(<<>>))), SFilter(LTest(FALSE, ERel(<<>>)))>>)>>)>>), ELit(JInt(2)))) >>
 C05DupQ == << <<Child(<<SName(cL), SName(cL)>>), Child(<<SFilter(TA)>>)>>, <<Child(<<SName(cL), SName(cK), SName(cL)>>), Child(<<SFilter(NA)>>)>>,
               <<Child(<<SIndex(0), SIndex(0)>>), Child(<<SFilter(TB)>>)>>, <<Child(<<SIndex(1), SIndex(-5)>>), Child(<<SFilter(LCmp(">", ERel(<<>>), ELit(JInt(0))))>>)>>,
@@ -448,7 +455,14 @@ UEq == JArr(<<JObj(<<cY, cX>>, <<JObj(<<cB, cA>>, <<JInt(2), JInt(1)>>), JObj(<<
 \* objects with MANY members (17: beyond small-size special cases) in two different insertion orders, equal / different in one value
 UBig(off, odd) == JObj([i \in 1..17 |-> <<97 + ((i * 5 + off) % 17)>>], [i \in 1..17 |-> JInt(IF (i * 5 + off) % 17 = odd THEN 99 ELSE (i * 5 + off) % 17)])
 UEq17 == JArr(<<JObj(<<cY, cX>>, <<UBig(0, 50), UBig(3, 50)>>), JObj(<<cX, cY>>, <<UBig(1, 50), UBig(7, 4)>>), JObj(<<cX, cY>>, <<UBig(2, 50), UBig(11, 50)>>)>>)
-C15Docs == <<U1, U2, U3, UEq, UEq17, JArr(<<U1, U2>>), JObj(<<cK, cA>>, <<U2, JArr(<<U3, JInt(1)>>)>>),
+WName(i) == <<107, 48 + (i \div 10), 48 + (i % 10)>>                                          \* k00 .. k99
+WideObj(n, off, odd) == JObj([i \in 1..n |-> WName((i * 7 + off) % n)], [i \in 1..n |-> JInt(IF (i * 7 + off) % n = odd THEN 999 ELSE (i * 7 + off) % n)])
+UEq33 == JArr(<<JObj(<<cY, cX>>, <<WideObj(33, 0, 77), WideObj(33, 5, 77)>>), JObj(<<cX, cY>>, <<WideObj(33, 1, 77), WideObj(33, 9, 4)>>), JObj(<<cX, cY>>, <<WideObj(33, 2, 77), WideObj(33, 20, 77)>>),
+               JObj(<<cX>>, <<WideObj(71, 3, 777)>>)>>)
+\* the same shape with members in name order (this one also runs on serde_json::Value)
+SortedWide(n, odd) == JObj([i \in 1..n |-> WName(i - 1)], [i \in 1..n |-> JInt(IF i - 1 = odd THEN 999 ELSE i - 1)])
+UEq33s == JArr(<<JObj(<<cX, cY>>, <<SortedWide(33, 77), SortedWide(33, 77)>>), JObj(<<cX, cY>>, <<SortedWide(33, 77), SortedWide(33, 4)>>), JObj(<<cX, cY>>, <<SortedWide(40, 77), SortedWide(40, 77)>>)>>)
+C15Docs == <<UEq33s, U1, U2, U3, UEq, UEq17, UEq33, JArr(<<U1, U2>>), JObj(<<cK, cA>>, <<U2, JArr(<<U3, JInt(1)>>)>>),
              JObj(<<cB, cA>>, <<JObj(<<cB, cA>>, <<JObj(<<cB, cA>>, <<JInt(1), JInt(2)>>), JInt(2)>>), JInt(3)>>)>>
 C15Sels == <<SWild, SName(cA), SName(cB), SIndex(0), SFilter(LCmp(">", ERel(<<>>), ELit(JInt(0)))), SFilter(LTest(FALSE, RelN(cA))),
              SFilter(LCmp("==", RelN(cA), ELit(JInt(1)))), SSlice(ABSENT, ABSENT, -1),
@@ -457,7 +471,10 @@ C15Segs == [i \in 1..Len(C15Sels) |-> Child(<<C15Sels[i]>>)] \o [i \in 1..Len(C1
 Names16 == [k \in 1..18 |-> SName(<<97 + ((k * 7) % 17)>>)]               \* h o e l b i p f m c j q g n d k a h : 18 selectors, one name twice
 C15ManyQ == << <<I1(0), N1(cX), Child(Names16)>>, <<I1(1), N1(cY), Child(Names16)>>, <<I1(0), N1(cY), Child(SubSeq(Names16, 1, 16))>>,
                <<I1(2), N1(cX), Child(SubSeq(Names16, 2, 16))>> >>                                   \* (one input node each: several would re-find D1)
-C15Queries == TuplesUpTo(C15Segs, IF Thorough THEN 3 ELSE 2) \o C15ManyQ
+WNames9 == <<SName(WName(7)), SName(WName(5)), SName(WName(60)), SName(WName(5)), SName(WName(0)), SName(WName(70)), SName(WName(7)), SName(WName(33)), SName(WName(99)), SName(WName(5))>>
+C15WideQ == << <<I1(3), N1(cX), Child(WNames9)>>, <<I1(3), N1(cX), Child(SubSeq(WNames9, 1, 8))>>, <<I1(0), N1(cX), Child(WNames9)>>,
+               Flt1(LCmp("==", EFn("count", <<ERel(<<N1(cX), Child(WNames9)>>)>>), ELit(JInt(8)))) >>
+C15Queries == TuplesUpTo(C15Segs, IF Thorough THEN 3 ELSE 2) \o C15ManyQ \o C15WideQ
 
 (* ---------- C01D: deeply nested documents (beyond serde_json's parser limit of 128) ----------- *)
 RECURSIVE NestDoc(_, _)
